@@ -96,6 +96,8 @@ pub struct Printer<'a> {
     pub mutation: Option<usize>,
     pub sites: usize,
     pub applied: Option<String>,
+    /// the kind of every injection site passed, in order
+    pub site_kinds: Vec<String>,
 }
 
 const POOL: &[&str] = &["a", "b", "c", "x", "y", "z"];
@@ -112,6 +114,7 @@ impl<'a> Printer<'a> {
             mutation: None,
             sites: 0,
             applied: None,
+            site_kinds: Vec::new(),
         }
     }
 
@@ -119,6 +122,7 @@ impl<'a> Printer<'a> {
     fn site(&mut self, kind: &str) -> bool {
         let idx = self.sites;
         self.sites += 1;
+        self.site_kinds.push(kind.to_string());
         if self.mutation == Some(idx) {
             self.applied = Some(kind.to_string());
             true
@@ -819,6 +823,14 @@ let str_eq = text/string/eq in
 /// Whole program text: prelude, declarations (in a block, with `that`), body.
 pub fn program_text(program: &Program, style: &Style, seed: u64) -> String {
     program_text_mut(program, style, seed, None).0
+}
+
+/// The kinds of the injection sites of a program, in site order (site numbering does not depend on the style).
+pub fn program_site_kinds(program: &Program, style: &Style, seed: u64) -> Vec<String> {
+    let mut p = Printer::new(&program.decls, style, seed);
+    let _ = decl_texts(&mut p, &program.decls);
+    let _ = p.comp(&program.body, &CTy::OS, false, &Vec::new());
+    p.site_kinds
 }
 
 /// As `program_text`, with one typed error injected at site number `mutation` (if any).
